@@ -2142,7 +2142,10 @@ class Component(System):
             # TODO: replace 'fwd' with self.best_partial_deriv_direction(). Currently fails
             # when it equals 'rev' for directional derivatives.
             directions = ('fwd',)  # rev same as fwd for analytic jacobians
-            self.run_linearize(sub_do_ln=False)
+            # all partials are checked, so none may be skipped (or have its approximation scheme
+            # dropped) because it is irrelevant to the current design variables and responses
+            with self._relevance.active(False):
+                self.run_linearize(sub_do_ln=False)
 
         nondep_derivs = set()
         of_list = self._get_partials_ofs()
